@@ -30,7 +30,7 @@ func c07ProcessLevel(c *vk.Ctx) {
 		}
 		return cf
 	}
-	N := 50
+	N := 6 + r.Intn(10) // small, so that the history rotates several times during the run
 	srv, err := StartServer(c.RunDir, mk(0), ServerOpts{ReplayHistory: N})
 	if err != nil {
 		c.Violation("C07/process/server-does-not-start", err.Error())
@@ -62,7 +62,7 @@ func c07ProcessLevel(c *vk.Ctx) {
 		return bytes.Equal(got, payload) && len(payload) > 0, true
 	}
 	gen := 0
-	for step := 0; step < c.N(30, 120); step++ {
+	for step := 0; step < c.N(60, 200); step++ {
 		switch x := r.Intn(10); {
 		case x < 4 || len(hist) == 0: // fresh handshake on a random listener
 			k := k1
